@@ -275,8 +275,9 @@ func genDirCase(r *hx.Rand) caseIn {
 	n := r.Range(2, 4)
 	for k := 0; k < n; k++ {
 		rd := roundIn{Dir: []dirEntry{}}
-		dupDone := false // at most ONE duplicated id per directory: with two, Init's stale-index
-		// deletion (findDuplicateIDs + deleteIndexes in map order) is nondeterministic - reported as a finding
+		// several ids may be duplicated in one directory (before 348ceac Init deleted the duplicates one id at a
+		// time with indexes into the original slice: panic or wrong configs dropped, by map order)
+		dupHeavy := r.Chance(1, 6)
 		ids := make([]int, 0, len(cur))
 		for id := range cur {
 			ids = append(ids, id)
@@ -305,8 +306,7 @@ func genDirCase(r *hx.Rand) caseIn {
 				d.Fault = r.Intn(6)
 			}
 			rd.Dir = append(rd.Dir, d)
-			if r.Chance(1, 12) && !dupDone { // the same id in a second file
-				dupDone = true
+			if r.Chance(1, 12) || (dupHeavy && r.Chance(2, 3)) { // the same id in a second file
 				rd.Dir = append(rd.Dir, dirEntry{ID: id, Cfg: genPipe(r, g), Fault: -1})
 			}
 		}
